@@ -25,10 +25,15 @@ fn zero_len_dir(ctx: &mut Ctx, case: u64) {
     let comp = gen::comp(codec);
     // every index for small directories, sampled for large ones
     let idxs: Vec<usize> = if n <= 80 { (0..n).collect() } else { (0..40).map(|_| rng.usize(0, n - 1)).chain([0, n - 1]).collect() };
-    for at in idxs {
+    // second variant per index: the offending entry additionally shares its predecessor's offset (a back reference)
+    let variants: Vec<(usize, bool)> = idxs.iter().flat_map(|at| if *at > 0 { vec![(*at, false), (*at, true)] } else { vec![(*at, false)] }).collect();
+    for (at, share_offset) in variants {
         let mut bad = list.clone();
         bad[at].length = 0;
-        let mat = json!({"entries": n, "zero_length_at": at, "codec": R::codec_name(codec)});
+        if share_offset {
+            bad[at].offset = bad[at - 1].offset;
+        }
+        let mat = json!({"entries": n, "zero_length_at": at, "offset_equals_predecessor": share_offset, "codec": R::codec_name(codec)});
         // serialiser
         let d = Directory::from(gen::to_lib_entries(&bad));
         let mut out = Vec::new();
@@ -142,7 +147,8 @@ fn empty_add(ctx: &mut Ctx, case: u64) {
         // the offending call: empty content on an existing id, an absent id, and via different Into<Vec<u8>> types
         for target in [*rng.pick(&ids), 424_242] {
             let before_report = arch.report();
-            let r1 = guard(|| arch.add(target, Vec::new()));
+            let variant = rng.below(8);
+            let r1 = guard(|| arch.add_empty(target, variant));
             match r1 {
                 Ok(Err(_)) => ctx.count("empty_adds_refused"),
                 Ok(Ok(())) => {
